@@ -4,6 +4,7 @@
 -/
 import MosVerif.Generated.Translated
 import MosVerif.Model.Ttl
+import MosVerif.Model.RedisCache
 namespace MosVerif.Ttl
 open MosVerif
 
@@ -18,6 +19,7 @@ def storeCore (rcode : Int) (hasRr : Bool) (mm maximumTtl : Int) : Int :=
   if ttl > maximumTtl then maximumTtl else ttl
 
 theorem id_pure_int (x : Int) : (pure x : Id Int) = x := rfl
+theorem id_pure_bool (x : Bool) : (pure x : Id Bool) = x := rfl
 
 /-- the mechanical translation of the Go statements computes `storeCore` -/
 theorem Store_ttl_core (rcode : Int) (hasRr : Bool) (mm maximumTtl : Int) :
@@ -55,5 +57,47 @@ theorem Store_ttl_translated (m : Msg) (maximumTtl : Int) :
     storeTtl m maximumTtl =
       Translated.Store_ttl (m.rcode : Int) (getMinimalTTL m).2 (durOfSeconds (getMinimalTTL m).1) maximumTtl := by
   rw [Store_ttl_core, storeTtl_core]
+
+/-! ### initCache: the configured maximum (multiplication, default, ten-year limit) -/
+
+/-- ★ tie: `initMaxTtl` IS the translated statements `c.maximumTtl = time.Duration(cfg.MaximumTTL) * time.Second` …
+    `if c.maximumTtl > maxCacheTtlLimit {…}` of `router.initCache`, whatever `c.maximumTtl` held before. The
+    translation multiplies in ℤ; Go multiplies in int64, which the model writes as `wrap64`: the range hypothesis
+    (seconds·10⁹ fits int64) is exactly where the two could part. -/
+theorem c08_initMaxTtl_translated (old cfgMax : Int)
+    (h1 : -9223372036854775808 ≤ cfgMax * second) (h2 : cfgMax * second < 9223372036854775808) :
+    initMaxTtl cfgMax = Translated.c08_initMaxTtl old cfgMax := by
+  unfold initMaxTtl Translated.c08_initMaxTtl
+  rw [show wrap64 (cfgMax * second) = cfgMax * second from by
+    unfold wrap64; rw [Int.emod_eq_of_lt (by omega) (by omega)]; omega]
+  simp only [Id.run, id_pure_int, decide_eq_true_eq, defaultMaxCacheTtl, maxCacheTtlLimit, second]
+  (repeat' split) <;> omega
+
+/-- non-vacuity and the other side: outside the range the int64 product wraps (D41/D42's family) and the model
+    follows Go, not ℤ -/
+example : initMaxTtl 9223372037 ≠ Translated.c08_initMaxTtl 0 9223372037 := by decide
+example : initMaxTtl 7 = Translated.c08_initMaxTtl 12345 7 := by decide
+
+/-! ### cacheCtl.Store: `msgRrMinTtl := time.Duration(u) * time.Second`, `negativeResp := …` -/
+
+/-- ★ tie: the duration of the smallest record TTL. `u` is a uint32, so the int64 product cannot wrap: no range
+    hypothesis is needed beyond the type. -/
+theorem c08_minDur_translated (u : UInt32) : durOfSeconds u = Translated.c08_minDur (u.toNat : Int) := by
+  have h := u.toNat_lt
+  unfold durOfSeconds wrap64 second Translated.c08_minDur
+  simp only [Id.run, id_pure_int]
+  omega
+
+/-- ★ tie: which responses are stored set-if-absent -/
+theorem c08_negativeResp_translated (rcode : Nat) : negativeResp rcode = Translated.c08_negativeResp rcode := by
+  unfold negativeResp Translated.c08_negativeResp
+  simp only [Id.run, id_pure_bool]
+  by_cases h : rcode = 0 <;> simp [h]
+
+/-- ★ tie: AsyncStore drops a SET whose relative ttl is `ttlMs <= 10` (all theorems of this file live in one
+    namespace: the audit resolves names per file) -/
+theorem c08_redisTtlTooShort_translated (ttlMs : Int) :
+    RedisCache.redisTtlTooShort ttlMs = Translated.c08_redisTtlTooShort ttlMs := by
+  unfold RedisCache.redisTtlTooShort Translated.c08_redisTtlTooShort; grind
 
 end MosVerif.Ttl
